@@ -4,6 +4,11 @@ import Mdsort.Proofs.L0Message
 import Mdsort.Proofs.L0Mime
 import Mdsort.Proofs.L0Util
 import Mdsort.Proofs.L0Unfold
+import Mdsort.Proofs.L0RefineHeader
+import Mdsort.Proofs.L0RefineSearch
+import Mdsort.Proofs.L0RefineMime
+import Mdsort.Proofs.L0RefineUtil
+import Mdsort.Proofs.L0RefineAttach
 
 /-!
 # C07 - hostile message content cannot corrupt memory, crash or hang mdsort
@@ -239,5 +244,196 @@ example : ∃ (kb buf : L0.Buf) (hs : Array L0.Hdr0), kb.HasNul 0 ∧ L0.HdrsIn 
   rcases hh with rfl | rfl
   · exact ⟨⟨7, by decide, rfl⟩, ⟨9, by decide, rfl⟩⟩
   · exact ⟨⟨2, by decide, rfl⟩, ⟨4, by decide, rfl⟩⟩
+
+/-!
+## Index level (L0): functional refinement
+
+Every L0 function computes what the list model computes on the view, so the functional theorems about the list
+model (C08, C10, C11, C12, C16) hold of the index-level code.  Vocabulary (Proofs/L0Refine*.lean):
+`l0r_readHdr b h` is the L1 header a table entry stands for (`key`/`val` read as C strings of `me_buf`);
+`l0r_table buf hs nmemb` the L1 table of the first `nmemb` entries; `l0r_readAtt a` the L1 message a
+`struct message` stands for; `l0r_shift s (before, term, rest) = (s + |before|, term)`; `l0r_lineLen` the length of the
+first line including its newline.
+-/
+
+open L0 in
+/-- `findheader`: the same outcome as the list model; the key slice is `[i, colon)`, the value slice ends at the
+newline that ends the value, the buffer handed back is `b` after the two in-place NUL writes, and read as C strings
+(and as slices) key and value are the list model's key and value, the text after the value its rest
+(`l0r_FindHdrRel`). -/
+theorem C07_L0_refines_findHeader (b : Buf) (hb : b.bytes.back? = some 0) (i : Nat) (hi : i < b.size) :
+    ∃ r, findHeader b i = .ok r ∧ l0r_FindHdrRel b i r (Model.findHeader (b.view i)) :=
+  l0r_findHeader_refines b (Buf.Terminated.hasNul hb hi)
+
+open L0 in
+/-- `message_parse_headers`: before `VECTOR_SORT` the table read back is the list model's loop result in file order
+and `me_body` points at the list model's body; after `VECTOR_SORT` the table read back and the body are
+`Model.parseHeaders` of the view (whose table is `sortByKey` of the former) - for a buffer made from a file,
+`Model.parseMessage` of the file. -/
+theorem C07_L0_refines_parse_headers (b : Buf) (hb : b.bytes.back? = some 0) :
+    (∃ b' hdrs body, parseHeaders b = .ok (b', hdrs, body) ∧
+      hdrs.items.toList.map (l0r_readHdr b') = (Model.parseLoop (Model.skipSeparator (b.view 0)) 0 []).1 ∧
+      b'.view body = (Model.parseHeaders (b.view 0)).body ∧
+      (Model.parseHeaders (b.view 0)).headers = Model.sortByKey (hdrs.items.toList.map (l0r_readHdr b'))) ∧
+    (∃ b' hs body, messageParseHeaders b = .ok (b', hs, body) ∧
+      Model.parseHeaders (b.view 0) = { headers := hs.toList.map (l0r_readHdr b'), body := b'.view body }) := by
+  refine ⟨?_, ?_⟩
+  · obtain ⟨b', hdrs, body, h, _, _, _, _, h1, h2⟩ := l0r_parseHeaders_refines b hb
+    exact ⟨b', hdrs, body, h, h1, h2, by rw [h1]; rfl⟩
+  · obtain ⟨b', hs, body, h, _, _, _, _, h1⟩ := l0r_messageParseHeaders_refines b hb
+    exact ⟨b', hs, body, h, h1⟩
+
+open L0 in
+/-- `message_parse` on the bytes of a file: what the index-level code leaves in the header table and `me_body` is
+`Model.parseMessage` of the file. -/
+theorem C07_L0_refines_parse_message (file : Bytes) :
+    ∃ b' hs body, messageParseHeaders (Buf.ofBytes file) = .ok (b', hs, body) ∧
+      Model.parseMessage file = { headers := hs.toList.map (l0r_readHdr b'), body := b'.view body } := by
+  obtain ⟨b', hs, body, h, _, _, _, _, h1⟩ := l0r_messageParseHeaders_refines _ (Buf.ofBytes_terminated file)
+  rw [Buf.view_ofBytes] at h1
+  exact ⟨b', hs, body, h, h1⟩
+
+open L0 in
+/-- `searchheader`: `(beg, nfound)` is the list model's result on the table read back (so `C10_binary_search`
+applies to the index-level code). -/
+theorem C07_L0_refines_search (kb : Buf) (k : Nat) (buf : Buf) (hs : Array Hdr0) (nmemb : Nat)
+    (hk : kb.HasNul k) (hin : HdrsIn buf hs) (hn : nmemb ≤ hs.size) :
+    L0.searchHeader kb k buf hs nmemb = .ok (Model.searchHeader (l0r_table buf hs nmemb) (kb.view k)) :=
+  l0r_searchHeader_refines hk hin hn
+
+open L0 in
+/-- `skipline` (the exact index), `parseboundary` (the same outcome; the `strndup`ed boundary is the C string of the
+list model's boundary), and `findboundary` for a boundary without a newline: the line it returns is at
+`i + |before|`, with the list model's terminator flag, the text before it is `before` and the view at it `rest`. -/
+theorem C07_L0_refines_mime_scanners (b : Buf) (hb : b.bytes.back? = some 0) (i : Nat) (hi : i < b.size) :
+    (skipLine b i = .ok (i + l0r_lineLen (b.view i)) ∧
+      b.view (i + l0r_lineLen (b.view i)) = Model.skipLine (b.view i)) ∧
+    (∃ r, parseBoundary b i = .ok r ∧ l0r_BoundaryRel r (Model.parseBoundary (b.view i))) ∧
+    (∀ bnd : Buf, bnd.bytes.back? = some 0 → 10 ∉ bnd.view 0 →
+      findBoundary bnd b i = .ok ((Model.findBoundary (bnd.view 0) (b.view i)).map (l0r_shift i)) ∧
+      ∀ before term rest, Model.findBoundary (bnd.view 0) (b.view i) = some (before, term, rest) →
+        b.view (i + before.length) = rest ∧ b.slice i (i + before.length) = before) := by
+  have h : b.HasNul i := Buf.Terminated.hasNul hb hi
+  refine ⟨⟨l0r_skipLine_spec h, ?_⟩, l0r_parseBoundary_refines b h, ?_⟩
+  · rw [l0r_skipLine_drop]
+    exact (h.add _ (l0r_lineLen_le _)).2
+  · intro bnd hbnd hnl
+    refine ⟨l0r_findBoundary_refines bnd b (Buf.Terminated.hasNul0 hbnd) hnl h, ?_⟩
+    intro before term rest hf
+    obtain ⟨_, h2, h3, _⟩ := l0r_findBoundary_pos h hf
+    exact ⟨h2, h3⟩
+
+open L0 in
+/-- Without the hypothesis on the boundary the statement about `findboundary` is false: with boundary `"a\n"` and
+text `"--a\n--a\n\n"` the C code (and its index-level transcription) returns NULL - after comparing `"--a\n--"` from
+offset 0 it resumes with `skipline` from offset 6 and never examines the line at offset 4 - while the list model
+`Model.findBoundary` reports the delimiter line at offset 4.  The list model is the one that departs from message.c. -/
+theorem C07_L0_refines_findBoundary_unrestricted_false : ¬ l0r_findBoundary_refines_unrestricted :=
+  l0r_findBoundary_newline_witness
+
+open L0 in
+/-- `message_get_header1`: the C string returned is the list model's value. -/
+theorem C07_L0_refines_getHeader1 (m : Att) (hm : AttOk m) (name : Bytes) (hname : ∀ x ∈ name, x ≠ 0) :
+    ∃ r, getHeader1 m name = .ok r ∧ r.map (fun t => t.view 0) = Model.getHeader1 (l0r_readAtt m) name := by
+  obtain ⟨r, h1, _, h2⟩ := l0r_getHeader1_refines m hm.2 name hname
+  exact ⟨r, h1, h2⟩
+
+open L0 in
+/-- `parseattachments(msg, parent, depth)` at every depth (`fuel = 5 - depth`), for every well-formed top-level
+message, every attachment table and every valid `msg`: the error return is the list model's `none`; otherwise the
+elements appended to the parent's table, read back, are the list model's parts in the same (pre-)order
+(`l0r_AttRel`).  Hypothesis `l0r_bndNl` (an executable `Bool`): no boundary the list model's traversal works with
+contains a newline. -/
+theorem C07_L0_refines_parseAttachments (root : Att) (hr : AttOk root) (fuel : Nat) (v : Vec Att) (msg : MsgRef)
+    (m : Att) (hv : VecOk v) (hm : RefOk v msg) (hd : derefMsg root v msg = .ok m)
+    (hnl : l0r_bndNl fuel (l0r_readAtt m) = true) :
+    ∃ v' e, parseAttachments fuel root v msg = .ok (v', e) ∧ VecOk v' ∧
+      l0r_AttRel v v' e (Model.parseAttachments fuel (l0r_readAtt m)) :=
+  l0r_parseAttachments_refines root hr fuel v msg m hv hm hd hnl
+
+open L0 in
+/-- `message_get_attachments`: NULL exactly when the list model says `none`, otherwise the attachment vector read
+back is `Model.getAttachments` - so C11 (parts, bodies, attachment conditions) holds of the index-level code. -/
+theorem C07_L0_refines_attachments (root : Att) (hr : AttOk root)
+    (hnl : l0r_bndNl (Gen.mimeDepthLimit + 1) (l0r_readAtt root) = true) :
+    ∃ r, getAttachments root = .ok r ∧
+      r.map (fun a => a.toList.map l0r_readAtt) = Model.getAttachments (l0r_readAtt root) :=
+  l0r_getAttachments_refines root hr hnl
+
+open L0 in
+/-- A whole message from its NUL-terminated buffer: `message_parse_headers` leaves the list model's message and
+`message_get_attachments` returns the list model's attachments. -/
+theorem C07_L0_refines_message (b : Buf) (hb : b.bytes.back? = some 0) (path : Bytes)
+    (hnl : l0r_bndNl (Gen.mimeDepthLimit + 1) (Model.parseHeaders (b.view 0)) = true) :
+    ∃ b' hs body r, messageParseHeaders b = .ok (b', hs, body) ∧
+      l0r_readAtt { buf := b', headers := hs, body := body, path := path } = Model.parseHeaders (b.view 0) ∧
+      getAttachments { buf := b', headers := hs, body := body, path := path } = .ok r ∧
+      r.map (fun a => a.toList.map l0r_readAtt) = Model.getAttachments (Model.parseHeaders (b.view 0)) :=
+  l0r_message_refines b hb path hnl
+
+open L0 in
+/-- Without `l0r_bndNl` the statement about whole messages is false: in the file
+`Content-Type: multipart/mixed; boundary="=?UTF-8?Q?a=0A?="\n\n--a\n--a\n\nX: y\n\nfound\n--a\n--\n` (boundary `"a\n"`)
+the index-level code, like message.c, finds no part, the list model finds one.  Where the two part, it is the list model
+(`Model.findBoundaryAux`) that departs from message.c. -/
+theorem C07_L0_refines_message_unrestricted_false : ¬ l0r_message_refines_unrestricted :=
+  l0r_message_newline_witness
+
+open L0 in
+/-- `ismacro` (length and `strndup`ed name), `isbackref` (length and both indices, through both `strtoul` calls with
+the `INT_MAX` test) and `pathslice` (the C string left in a destination of at least `bufsiz` bytes) compute what the
+list models compute on the view. -/
+theorem C07_L0_refines_util (b : Buf) (hb : b.bytes.back? = some 0) (i : Nat) (hi : i < b.size) :
+    L0.isMacro b i = .ok (l0r_macroAbs (Model.isMacro (b.view i))) ∧
+    L0.isBackref b i = .ok (l0r_backrefAbs (Model.isBackref (b.view i))) ∧
+    (∀ (buf : Buf) (bufsiz : Nat) (beg end_ : Int), bufsiz ≤ buf.size →
+      ∃ r, L0.pathslice b buf bufsiz beg end_ = .ok r ∧
+        r.map (fun d => d.view 0) = Model.pathslice (b.view 0) bufsiz beg end_) := by
+  have h : b.HasNul i := Buf.Terminated.hasNul hb hi
+  exact ⟨l0r_isMacro_refines b h, l0r_isBackref_refines b h,
+    fun buf bufsiz beg end_ hle => l0r_pathslice_refines b (Buf.Terminated.hasNul0 hb) buf bufsiz hle beg end_⟩
+
+/-! Non-vacuity of the refinement theorems. -/
+
+/-- `"To: a\n b\nCc: c\n\nx"` as `buffer_str` hands it out, and an index inside it (`findheader`, the MIME scanners,
+`ismacro`/`isbackref`/`pathslice`). -/
+example : (L0.Buf.ofBytes (ofString "To: a\n b\nCc: c\n\nx")).bytes.back? = some 0 ∧
+    0 < (L0.Buf.ofBytes (ofString "To: a\n b\nCc: c\n\nx")).size := by decide +kernel
+
+/-- A boundary `"b"` as `strndup` hands it out: terminated, no newline. -/
+example : (L0.Buf.ofBytes [98]).bytes.back? = some 0 ∧ 10 ∉ (L0.Buf.ofBytes [98]).view 0 := by decide
+
+/-- A header name without NUL. -/
+example : ∀ x ∈ L0.contentTypeName, x ≠ 0 := by decide
+
+/-- The message `Content-Type: multipart/mixed; boundary="b"` with body `--b\nA: 1\n\nx\n--b--\n` after
+`message_parse_headers` (NULs at offsets 12 and 43, one table entry, `me_body` at offset 45): well formed, its only
+boundary is newline-free, and it has one part. -/
+def l0rExampleRoot : L0.Att :=
+  { buf := ⟨#[67, 111, 110, 116, 101, 110, 116, 45, 84, 121, 112, 101, 0, 32,
+      109, 117, 108, 116, 105, 112, 97, 114, 116, 47, 109, 105, 120, 101, 100, 59, 32,
+      98, 111, 117, 110, 100, 97, 114, 121, 61, 34, 98, 34, 0, 10,
+      45, 45, 98, 10, 65, 58, 32, 49, 10, 10, 120, 10, 45, 45, 98, 45, 45, 10, 0]⟩,
+    headers := #[{ id := 1, key := 0, val := 14 }], body := 45, path := [] }
+
+example : L0.AttOk l0rExampleRoot ∧ L0.l0r_bndNl (Gen.mimeDepthLimit + 1) (L0.l0r_readAtt l0rExampleRoot) = true ∧
+    Model.getAttachments (L0.l0r_readAtt l0rExampleRoot) =
+      some [{ headers := [{ id := 1, key := [65], val := [49] }], body := [120, 10] }] := by
+  refine ⟨⟨⟨63, by decide, rfl⟩, ?_⟩, by decide +kernel, by decide +kernel⟩
+  intro h hh
+  simp only [l0rExampleRoot, Array.mem_def, List.mem_cons, List.not_mem_nil, or_false] at hh
+  subst hh
+  exact ⟨⟨12, by decide, rfl⟩, ⟨43, by decide, rfl⟩⟩
+
+/-- The same message as a file: terminated buffer, newline-free boundary. -/
+example : (L0.Buf.ofBytes (ofString "Content-Type: multipart/mixed; boundary=\"b\"\n\n--b\nA: 1\n\nx\n--b--\n")).bytes.back? = some 0 ∧
+    L0.l0r_bndNl (Gen.mimeDepthLimit + 1) (Model.parseHeaders
+      ((L0.Buf.ofBytes (ofString "Content-Type: multipart/mixed; boundary=\"b\"\n\n--b\nA: 1\n\nx\n--b--\n")).view 0)) = true := by
+  decide +kernel
+
+/-- The top-level message, an empty table and `msg = root` for `C07_L0_refines_parseAttachments`. -/
+example : ∃ (v : L0.Vec L0.Att) (msg : L0.MsgRef) (m : L0.Att), L0.VecOk v ∧ L0.RefOk v msg ∧
+    L0.derefMsg l0rExampleRoot v msg = .ok m ∧ L0.l0r_bndNl 5 (L0.l0r_readAtt m) = true :=
+  ⟨L0.Vec.init, .root, l0rExampleRoot, by intro a ha; simp [L0.Vec.init] at ha, trivial, rfl, by decide +kernel⟩
 
 end Mdsort.Props
